@@ -36,6 +36,7 @@ type hstate struct {
 	shouldBeStarted bool
 	stopped         bool
 	handled         map[string]bool
+	held            chan struct{} // non-nil while an invocation of this handler is parked inside the handler func
 }
 
 type machine struct {
@@ -64,7 +65,14 @@ func (m *machine) addHandler(t *rapid.T) {
 	fn := func(msg *message.Message) ([]*message.Message, error) {
 		m.mu.Lock()
 		h.handled[msg.UUID] = true
+		gate := h.held
 		m.mu.Unlock()
+		if gate != nil && strings.HasPrefix(msg.UUID, "hold-") {
+			select {
+			case <-gate: // a long-running invocation
+			case <-time.After(4 * lib.Live): // safety net only, far beyond every liveness bound
+			}
+		}
 		if h.pub >= 0 {
 			return []*message.Message{message.NewMessage("out-"+msg.UUID, nil)}, nil
 		}
@@ -204,6 +212,56 @@ func (m *machine) publisherClosed(h *hstate) bool {
 	return false
 }
 
+// hold: one handler gets a long-running invocation (released later); other handlers must be unaffected.
+func (m *machine) hold(t *rapid.T) {
+	if !m.running || m.ended {
+		return
+	}
+	var cands []*hstate
+	for _, h := range m.hs {
+		if h.shouldBeStarted && !h.stopped && h.held == nil && !m.publisherClosed(h) {
+			cands = append(cands, h)
+		}
+	}
+	if len(cands) == 0 {
+		return
+	}
+	h := cands[rapid.IntRange(0, len(cands)-1).Draw(t, "holdHandler")]
+	select {
+	case <-h.handle.Started():
+	case <-time.After(lib.Live):
+		t.Fatalf("violation: Started() of %s not closed (ops %v)", h.name, m.ops)
+	}
+	m.mu.Lock()
+	h.held = make(chan struct{})
+	m.mu.Unlock()
+	tag := fmt.Sprintf("hold-%d-%s", len(m.ops), h.name)
+	if _, ok := h.sub.Subs()[0].Emit(message.NewMessage(tag, nil), tag, 0, lib.Live); !ok {
+		t.Fatalf("violation: started handler %s does not take messages (ops %v)", h.name, m.ops)
+	}
+	if !lib.WaitUntil(lib.Live, func() bool { m.mu.Lock(); defer m.mu.Unlock(); return h.handled[tag] }) {
+		t.Fatalf("violation: message for %s not handled (ops %v)", h.name, m.ops)
+	}
+	m.nontrivial = true
+	m.log("hold(%s)", h.name)
+}
+
+func (m *machine) releaseAll() {
+	m.mu.Lock()
+	for _, h := range m.hs {
+		if h.held != nil {
+			close(h.held)
+			h.held = nil
+		}
+	}
+	m.mu.Unlock()
+}
+
+func (m *machine) release(t *rapid.T) {
+	m.releaseAll()
+	m.log("release held invocations")
+}
+
 func (m *machine) stop(t *rapid.T) {
 	if !m.running || m.ended {
 		return // not applicable in this state (not running): a no-op, never a skipped action
@@ -223,6 +281,17 @@ func (m *machine) stop(t *rapid.T) {
 	case <-time.After(lib.Live):
 		t.Fatalf("violation: Started() of %s not closed (ops %v)", h.name, m.ops)
 	}
+	// "Stop ends that handler only": often stop it while another handler is inside a long-running invocation
+	if len(cands) >= 2 && rapid.Bool().Draw(t, "whileAnotherHandlerIsBusy") {
+		m.hold(t)
+	}
+	// an implementation may let Stopped() wait for the handler's own running invocation: release that one
+	m.mu.Lock()
+	if h.held != nil {
+		close(h.held)
+		h.held = nil
+	}
+	m.mu.Unlock()
 	func() {
 		defer func() {
 			if r := recover(); r != nil {
@@ -251,6 +320,7 @@ func (m *machine) stop(t *rapid.T) {
 		}
 	}
 	if alive == 0 {
+		m.releaseAll()
 		m.expectRunReturns(t, "the last handler ended")
 	}
 }
@@ -289,6 +359,7 @@ func (m *machine) cancelCtx(t *rapid.T) {
 	if !m.running || m.ended || !m.allStarted() {
 		return // not applicable in this state (not running / unstarted handlers): a no-op, never a skipped action
 	}
+	m.releaseAll()
 	m.cancel()
 	m.log("cancel Run context")
 	m.expectRunReturns(t, "the Run context was cancelled")
@@ -298,6 +369,7 @@ func (m *machine) closeRouter(t *rapid.T) {
 	if !m.running || m.ended || !m.allStarted() {
 		return // not applicable in this state (not running / unstarted handlers): a no-op, never a skipped action
 	}
+	m.releaseAll()
 	done := make(chan error, 1)
 	go func() { done <- m.router.Close() }()
 	select {
@@ -338,6 +410,7 @@ func TestLifecycleMachine(t *testing.T) {
 		defer ctl.Uninstall()
 		ctl.Noise(rapid.SliceOfN(rapid.Uint8Range(0, 5), 0, 8).Draw(t, "noise"))
 		defer func() {
+			m.releaseAll()
 			if m.running && !m.ended {
 				go m.router.Close()
 			}
@@ -348,6 +421,8 @@ func TestLifecycleMachine(t *testing.T) {
 			"runHandlers": m.runHandlers,
 			"probe":       m.probeAll,
 			"stop":        m.stop,
+			"hold":        m.hold,
+			"release":     m.release,
 			"cancelCtx":   m.cancelCtx,
 			"close":       m.closeRouter,
 			"":            m.invariant,
@@ -460,6 +535,169 @@ func TestStopRightAfterStarted(t *testing.T) {
 		lib.Case(fmt.Sprintf("forced|%d|%d|%v", n, skip, late), achieved, "forced-stop", fmt.Sprintf("achieved=%v", achieved))
 		if achieved {
 			lib.Sample(map[string]any{"test": "StopRightAfterStarted", "handlers": n, "which_start": skip, "added_after_run": late})
+		}
+	})
+}
+
+// ---------- forced: Stop() while a message sits in the handler's subscriber decorator ----------
+
+func TestStopWithMessageInFlight(t *testing.T) {
+	rapid.Check(t, func(t *rapid.T) {
+		n := rapid.IntRange(1, 3).Draw(t, "handlers")
+		k := rapid.IntRange(0, n-1).Draw(t, "stoppedHandler")
+		viaCtx := rapid.Bool().Draw(t, "cancelRunContextInstead")
+		router, err := message.NewRouter(message.RouterConfig{CloseTimeout: 5 * time.Second}, watermill.NopLogger{})
+		if err != nil {
+			t.Fatalf("NewRouter: %v", err)
+		}
+		ctl := lib.Install()
+		defer ctl.Uninstall()
+		subs := make([]*lib.ScriptSub, n)
+		hs := make([]*message.Handler, n)
+		var mu sync.Mutex
+		handled := map[string]bool{}
+		for i := range subs {
+			subs[i] = lib.NewScriptSub("")
+			hs[i] = router.AddNoPublisherHandler(fmt.Sprintf("h%d", i), "t", subs[i], func(m *message.Message) error {
+				mu.Lock()
+				handled[m.UUID] = true
+				mu.Unlock()
+				return nil
+			})
+		}
+		ctx, cancel := context.WithCancel(context.Background())
+		defer cancel()
+		runRet := make(chan error, 1)
+		go func() { runRet <- router.Run(ctx) }()
+		select {
+		case <-router.Running():
+		case <-time.After(lib.Live):
+			t.Fatalf("harness: router did not start")
+		}
+		// park the forwarding goroutine of handler k's decorator with a message in its hands
+		park := ctl.Park("decorator.sub.before_out", nil, 0)
+		msg := message.NewMessage("in-flight", nil)
+		d, ok := subs[k].Subs()[0].Emit(msg, "in-flight", 0, lib.Live)
+		if !ok {
+			t.Fatalf("harness: message not taken")
+		}
+		achieved := park.WaitReached(100 * time.Millisecond)
+		if viaCtx {
+			cancel()
+		} else {
+			hs[k].Stop()
+		}
+		time.Sleep(time.Duration(rapid.IntRange(0, 2).Draw(t, "releaseDelayMs")) * time.Millisecond)
+		park.Release()
+		// the stopped handler ends although a delivery raced with the stop
+		select {
+		case <-hs[k].Stopped():
+		case <-time.After(lib.Live):
+			t.Fatalf("violation: Stopped() of the handler not closed within %v after %s with a message in flight in its subscriber decorator (forced=%v)", lib.Live, map[bool]string{true: "the Run context was cancelled", false: "Stop()"}[viaCtx], achieved)
+		}
+		// the message is either handled (and settled by the router) or never handled and never acked
+		time.Sleep(time.Millisecond)
+		mu.Lock()
+		wasHandled := handled["in-flight"]
+		mu.Unlock()
+		if a, _ := d.State(); a && !wasHandled {
+			t.Fatalf("violation: the in-flight message was acked without being handled")
+		}
+		if viaCtx || n == 1 {
+			select {
+			case err := <-runRet:
+				if err != nil {
+					t.Fatalf("violation: Run returned %v", err)
+				}
+			case <-time.After(lib.Live):
+				t.Fatalf("violation: Run did not return within %v after the last handler ended / the context was cancelled", lib.Live)
+			}
+		} else {
+			// the others keep processing
+			for i := range subs {
+				if i == k {
+					continue
+				}
+				tag := fmt.Sprintf("probe-%d", i)
+				pd, ok := subs[i].Subs()[0].Emit(message.NewMessage(tag, nil), tag, 0, lib.Live)
+				if !ok {
+					t.Fatalf("violation: handler %d stopped taking messages after another handler was stopped", i)
+				}
+				if acked, settled := pd.Wait(lib.Live); !settled || !acked {
+					t.Fatalf("violation: handler %d does not process messages after another handler was stopped", i)
+				}
+			}
+			done := make(chan struct{})
+			go func() { router.Close(); close(done) }()
+			select {
+			case <-done:
+			case <-time.After(lib.Live):
+				t.Fatalf("violation: Close did not return")
+			}
+		}
+		lib.Case(fmt.Sprintf("inflight|%d|%d|%v", n, k, viaCtx), achieved, "stop-with-message-in-flight", fmt.Sprintf("achieved=%v", achieved))
+		if achieved {
+			lib.Sample(map[string]any{"test": "StopWithMessageInFlight", "handlers": n, "stopped": k, "via_ctx_cancel": viaCtx})
+		}
+	})
+}
+
+// ---------- forced: Close() arrives while RunHandlers is still starting handlers ----------
+
+func TestCloseDuringStartup(t *testing.T) {
+	rapid.Check(t, func(t *rapid.T) {
+		n := rapid.IntRange(2, 4).Draw(t, "handlers")
+		skip := rapid.IntRange(0, n-2).Draw(t, "closeAfterStarts")
+		late := rapid.Bool().Draw(t, "duringUserRunHandlers")
+		router, err := message.NewRouter(message.RouterConfig{CloseTimeout: 5 * time.Second}, watermill.NopLogger{})
+		if err != nil {
+			t.Fatalf("NewRouter: %v", err)
+		}
+		ctl := lib.Install()
+		defer ctl.Uninstall()
+		add := func(i int) {
+			router.AddNoPublisherHandler(fmt.Sprintf("h%d", i), "t", lib.NewScriptSub(""), func(*message.Message) error { return nil })
+		}
+		var park *lib.Parked
+		runRet := make(chan error, 1)
+		if late {
+			add(100)
+			go func() { runRet <- router.Run(context.Background()) }()
+			select {
+			case <-router.Running():
+			case <-time.After(lib.Live):
+				t.Fatalf("harness: router did not start")
+			}
+			for i := 0; i < n; i++ {
+				add(i)
+			}
+			park = ctl.Park("router.runhandlers.started", nil, skip)
+			go router.RunHandlers(context.Background())
+		} else {
+			for i := 0; i < n; i++ {
+				add(i)
+			}
+			park = ctl.Park("router.runhandlers.started", nil, skip)
+			go func() { runRet <- router.Run(context.Background()) }()
+		}
+		achieved := park.WaitReached(200 * time.Millisecond)
+		closed := make(chan error, 1)
+		go func() { closed <- router.Close() }()
+		time.Sleep(time.Duration(rapid.IntRange(0, 3).Draw(t, "releaseDelayMs")) * time.Millisecond)
+		park.Release()
+		select {
+		case <-closed:
+		case <-time.After(lib.Live):
+			t.Fatalf("violation: Close() called while handlers were being started did not return within %v (forced=%v, during user RunHandlers=%v)", lib.Live, achieved, late)
+		}
+		select {
+		case <-runRet:
+		case <-time.After(lib.Live):
+			t.Fatalf("violation: Run did not return within %v after Close() (forced=%v)", lib.Live, achieved)
+		}
+		lib.Case(fmt.Sprintf("close-startup|%d|%d|%v", n, skip, late), achieved, "close-during-startup", fmt.Sprintf("achieved=%v", achieved))
+		if achieved {
+			lib.Sample(map[string]any{"test": "CloseDuringStartup", "handlers": n, "close_after_starts": skip + 1, "during_user_RunHandlers": late})
 		}
 	})
 }
